@@ -222,6 +222,21 @@ def run_vh_parallel(arg_lists, timeout=3600):
                         "stdout_tail": "\n".join(lines[-5:])})
         else:
             out.append(summary)
+    # a worker that reported a hang is run again on its own, with the other workers gone: only a hang that repeats is
+    # a property of the code under test (the first one may be a starved process on a loaded machine)
+    for i, (args, o) in enumerate(zip(arg_lists, out)):
+        if isinstance(o, dict) and "hang" in o and "--hang-secs" not in args:
+            try:
+                r = subprocess.run([VH] + args + ["--hang-secs", "60"], stdout=subprocess.PIPE, stderr=subprocess.PIPE, text=True,
+                                   timeout=timeout)
+                lines = [ln for ln in r.stdout.splitlines() if ln.strip()]
+                again = json.loads(lines[-1]) if r.returncode == 0 and lines else None
+            except (subprocess.TimeoutExpired, json.JSONDecodeError):
+                again = None
+            if again is not None:
+                if "hang" not in again:
+                    log(f"[vh] a worker reported a stall that did not repeat when run alone: {' '.join(args)[:120]}")
+                out[i] = again
     return out
 
 
